@@ -1,16 +1,19 @@
 """G10 (specification growth, not a listed property) — peer-to-peer block synchronisation:
-p2p/sync (Service, BlockFetcher, Client, adapters/p2p2core) and p2p/server (adapters/core2p2p).
-Specification spec/p2psync/{P2PSync,P2PServer}.tla, engine harness/engines/p2psync.
-Run with ./check G10. Not registered in MANIFEST.json; evidence is written to evidence/G10.json."""
+p2p/sync (Service, BlockFetcher, Client, adapters/p2p2core) and p2p/server (iterator, handlers,
+adapters/core2p2p). Specification spec/p2psync/{P2PSync,P2PServer}.tla, engine
+harness/engines/p2psync. Run with ./check G10. Not registered in MANIFEST.json; evidence is written
+to evidence/G10.json."""
 import json
+import os
 
 import vlib
 
+FAM = "p2psync"
 PARTS = {"t": "txs", "e": "evs", "c": "cls", "d": "sd"}
 
-# (name, class) of the simulated peers; the classes are the alphabet of P2PSync.tla
+# (name, class) of the simulated peers; the classes are the alphabet of P2PSync.tla (Ans)
 SIM_WORLDS = {
-    # every class, a fork that branches at height 2 (the node starts below it: it can be captured)
+    # every class; a fork that branches at height 2 (the node starts below it: it can be captured)
     "mixed": dict(shapes_a=["tecd", "", "te", "d", "tecd", "t"], fork_at=2, shapes_b=["td", "tec", "d"], start=0,
                   peers=[("h1", "honest"), ("h2", "benign"), ("c1", "corrupt"), ("t1", "trunc"), ("o1", "other"),
                          ("m1", "mute"), ("f1", "fork"), ("d1", "down"), ("k1", "flaky")]),
@@ -20,7 +23,28 @@ SIM_WORLDS = {
     # a fork below the node's start: harmless
     "forkbelow": dict(shapes_a=["tecd", "d", "te", "tecd", ""], fork_at=1, shapes_b=["t", "tecd", "d"], start=2,
                       peers=[("h1", "honest"), ("f1", "fork"), ("o1", "other"), ("m1", "mute")]),
+    # free-running rounds with every faulty class but few enough peers for the honest draw to come up
+    "free": dict(shapes_a=["tecd", "te", "", "tecd", "d"], fork_at=-1, shapes_b=[], start=1,
+                 peers=[("h1", "honest"), ("h2", "benign"), ("c1", "corrupt"), ("m1", "mute"), ("k1", "flaky")]),
+    "freefork": dict(shapes_a=["tecd", "te", "d", "tc"], fork_at=2, shapes_b=["te", "tecd"], start=0,
+                     peers=[("h1", "honest"), ("f1", "fork"), ("o1", "other"), ("t1", "trunc")]),
 }
+SERVER_WORLD = dict(shapes_a=["tecd", "te", "", "tecd", "d"], fork_at=-1, shapes_b=[], start=0, peers=[])
+ROBUST_WORLD = dict(shapes_a=["tecd", "te", "", "tecd", "d", "tecd", "tecd"], fork_at=-1, shapes_b=[], start=0, peers=[])
+
+# expected-violation configurations: cfg -> the property that must fail
+EXPECTED = {
+    "P2PSync_x_leak.cfg": "NoLeak",
+    "P2PSync_x_noverify.cfg": "EmittedVerified",
+    "P2PSync_x_unchecked.cfg": "StoredIsChain",
+    "P2PSync_x_noretry.cfg": "ExitOnlyAfterCancel",
+    "P2PSync_x_fork.cfg": "PrefixOfA",
+    "P2PSync_x_cancel_live.cfg": "temporal",
+    "P2PSync_x_live_noretry.cfg": "temporal",
+    "P2PSync_x_live_flaky.cfg": "temporal",
+    "P2PSync_x_live_fork.cfg": "temporal",
+}
+EXPECTED_SERVER = {"P2PServer_x_wrap.cfg": "Conforms", "P2PServer_x_nil.cfg": "NoPanic"}
 
 
 def empties(shapes, first):
@@ -32,7 +56,13 @@ def empties(shapes, first):
     return "{" + ", ".join(out) + "}"
 
 
+def world_json(wd, new_state):
+    return dict(new_state=new_state, shapes_a=wd["shapes_a"], fork_at=wd["fork_at"], shapes_b=wd["shapes_b"],
+                start=wd["start"], peers=[dict(name=n, **{"class": c}) for n, c in wd["peers"]])
+
+
 def sim_files(wd, new_state):
+    """The TLA+ world module and configurations of one world, and the same world for the engine."""
     ha = len(wd["shapes_a"])
     fork = wd["fork_at"] >= 0
     hb = wd["fork_at"] + len(wd["shapes_b"]) if fork else 0
@@ -44,25 +74,227 @@ def sim_files(wd, new_state):
         "SimEmptyA == %s" % empties(wd["shapes_a"], 0),
         "SimEmptyB == %s" % (empties(wd["shapes_b"], wd["fork_at"]) if fork else "{}"),
         "=============================================================================", ""])
-    cfg = "\n".join([
+    consts = "\n".join([
         "CONSTANTS HA = %d HB = %d ForkAt = %d Start = %d MaxIter = 0 WithCancel = TRUE" % (ha, hb, max(wd["fork_at"], 0), wd["start"]),
         "  Peers = {%s}" % ", ".join('"%s"' % n for n, _ in wd["peers"]),
-        "  Verify = TRUE Retry = TRUE CheckedStore = TRUE CtxAwareSends = FALSE MaxSteps = 80",
-        "  ClassOf <- SimClass EmptyA <- SimEmptyA EmptyB <- SimEmptyB",
-        "INIT MBTInit", "NEXT MBTNext", "CHECK_DEADLOCK FALSE", ""])
-    world = dict(new_state=new_state, shapes_a=wd["shapes_a"], fork_at=wd["fork_at"], shapes_b=wd["shapes_b"], start=wd["start"],
-                 peers=[dict(name=n, **{"class": c}) for n, c in wd["peers"]])
-    consts = cfg.split("INIT")[0].replace(" MaxSteps = 80", "")
-    tcfg = consts + "\n".join(["INIT TraceInit", "NEXT TraceNext", "VIEW TraceView", "CONSTRAINT TraceConstraint",
-                               "POSTCONDITION TraceAccepted",
-                               "INVARIANTS TypeOK StoredIsChain OnlyVerified EmittedVerified NoSkip", "CHECK_DEADLOCK FALSE", ""])
-    return {"P2PSyncWorld.tla": mod, "P2PSync_sim.cfg": cfg, "P2PSync_trace.cfg": tcfg}, world
+        "  Verify = TRUE Retry = TRUE CheckedStore = TRUE CtxAwareSends = FALSE%s",
+        "  ClassOf <- SimClass EmptyA <- SimEmptyA EmptyB <- SimEmptyB", ""])
+    cfg = consts % " MaxSteps = 80" + "\n".join(["INIT MBTInit", "NEXT MBTNext", "CHECK_DEADLOCK FALSE", ""])
+    tcfg = consts % "" + "\n".join(["INIT TraceInit", "NEXT TraceNext", "VIEW TraceView", "CONSTRAINT TraceConstraint",
+                                    "POSTCONDITION TraceAccepted",
+                                    "INVARIANTS TypeOK StoredIsChain OnlyVerified EmittedVerified NoSkip", "CHECK_DEADLOCK FALSE", ""])
+    return {"P2PSyncWorld.tla": mod, "P2PSync_sim.cfg": cfg, "P2PSync_trace.cfg": tcfg}, world_json(wd, new_state)
+
+
+def expect(ctx, module, cfg, prop, timeout=1500):
+    r = ctx.tlc_check(FAM, module, cfg, timeout=timeout, expect_violation=True)
+    if r["ok"] or r["violated"] != prop:
+        raise vlib.Broken("expected-violation run %s: %s should fail, TLC says ok=%s violated=%s" % (cfg, prop, r["ok"], r["violated"]))
+    ctx.coverage["expected_violations_confirmed"] = ctx.coverage.get("expected_violations_confirmed", 0) + 1
+
+
+def model_check(ctx):
+    q = ctx.quick()
+    res = ctx.tlc_check(FAM, "MCP2PSync.tla", "P2PSync_quick.cfg", timeout=1500, coverage=not q)
+    if not q:
+        vlib.require_actions_covered(res, ignore=("Init",))
+    ctx.tlc_check(FAM, "MCP2PSync.tla", "P2PSync_forkbelow.cfg", timeout=1500)
+    ctx.tlc_check(FAM, "MCP2PSync.tla", "P2PSync_cancel_live.cfg", timeout=1500)
+    ctx.tlc_check(FAM, "MCP2PSync.tla", "P2PSync_live.cfg", timeout=1500)
+    quick_x = ["P2PSync_x_leak.cfg", "P2PSync_x_noverify.cfg", "P2PSync_x_unchecked.cfg", "P2PSync_x_noretry.cfg",
+               "P2PSync_x_fork.cfg", "P2PSync_x_cancel_live.cfg"]
+    for cfg, prop in EXPECTED.items():
+        if q and cfg not in quick_x:
+            continue
+        expect(ctx, "MCP2PSync.tla", cfg, prop)
+    if not q:
+        for cfg in ["P2PSync_ascoded.cfg", "P2PSync_fork.cfg", "P2PSync_thorough.cfg", "P2PSync_thorough_ascoded.cfg", "P2PSync_live_thorough.cfg"]:
+            ctx.tlc_check(FAM, "MCP2PSync.tla", cfg, timeout=2400)
+    # the serving side
+    ctx.tlc_check(FAM, "P2PServer.tla", "P2PServer_quick.cfg", timeout=900)
+    ctx.tlc_check(FAM, "P2PServer.tla", "P2PServer_ascoded.cfg", timeout=900)
+    for cfg, prop in EXPECTED_SERVER.items():
+        expect(ctx, "P2PServer.tla", cfg, prop, timeout=900)
+
+
+def server_cases(ctx):
+    r = ctx.tlc_check(FAM, "P2PServerMBT.tla", "P2PServer_export.cfg", timeout=900, workers=1, label="server-export")
+    cases = []
+    for line in r["out"].splitlines():
+        if line.startswith('"{'):
+            cases.append(json.loads(json.loads(line)))
+    if len(cases) < 1000:
+        raise vlib.Broken("server export produced only %d requests" % len(cases))
+    ctx.coverage["server_requests_in_domain"] = len(cases)
+    ctx.coverage["server_requests_where_code_model_differs_from_contract"] = sum(1 for c in cases if c["res"] != c["decl"])
+    return cases
+
+
+def replay(ctx, binary, name, new_state, nbeh, seed):
+    files, world = sim_files(SIM_WORLDS[name], new_state)
+    behs = ctx.tlc_simulate(FAM, "P2PSyncMBT.tla", "P2PSync_sim.cfg", depth=120 * nbeh, seed=seed, files=files, timeout=1500)
+    res = ctx.run_engine(binary, "TestP2PSyncReplay", {"world": world, "behaviours": behs}, timeout=2400)
+    ctx.absorb(res, FAM, "TestP2PSyncReplay")
+    return behs, world
+
+
+def validate_traces(ctx, binary, name, new_state, rounds, seed0):
+    """Free-running rounds: Go monitors inside the engine, then TLC on the recorded trace."""
+    files, world = sim_files(SIM_WORLDS[name], new_state)
+    tf = os.path.join(ctx.scratch, "trace-%s.ndjson" % name)
+    rm = os.path.join(ctx.scratch, "rmap-%s.json" % name)
+    res = ctx.run_engine(binary, "TestP2PSyncFree", dict(world=world, rounds=rounds, seed0=seed0, trace=tf, round_map=rm,
+                                                         max_iters=8000, cancel=True), timeout=2400)
+    ctx.absorb(res, FAM, "TestP2PSyncFree")
+    rinfo = json.load(open(rm))
+    lines = open(tf).read().splitlines()
+    if not rinfo:
+        return None, files
+    accepted = 0
+    for _ in range(4):
+        with open(tf, "w") as f:
+            f.write("\n".join(lines) + "\n")
+        ok, r = ctx.tlc_trace(FAM, "P2PSyncTrace.tla", "P2PSync_trace.cfg", tf, timeout=1500, files=files)
+        if ok:
+            accepted = len(rinfo)
+            break
+        if r["violated"] not in ("postcondition",) or not r.get("highwater"):
+            inv = r["violated"]
+            if inv in ("StoredIsChain", "OnlyVerified", "EmittedVerified", "NoSkip", "TypeOK"):
+                # an invariant of the specification is false on the recorded run of the real code
+                ctx.report("p2psync:trace-violates:" + inv, "a recorded run of the real service violates %s of P2PSync.tla" % inv,
+                           {"property": "G10", "engine": FAM, "test": "trace", "seed": ctx.seed,
+                            "input": {"world_name": name, "new_state": new_state, "lines": lines}})
+                break
+            raise vlib.Broken("trace validation failed for another reason than rejection:\n%s" % "\n".join(r["out"].splitlines()[-30:]))
+        hw = r["highwater"]
+        bad = ([x for x in rinfo if x["first"] <= hw <= x["last"]] or [rinfo[-1]])[0]
+        seg = lines[bad["first"] - 1: bad["last"]]
+        ctx.report("p2psync:trace-rejected", "a recorded run of the real service is not a behaviour of P2PSync.tla (world %s, round seed %s, stuck at "
+                   "line %d of the round: %s)" % (name, bad["seed"], hw - bad["first"] + 1, lines[min(hw, len(lines)) - 1][:200]),
+                   {"property": "G10", "engine": FAM, "test": "trace", "seed": ctx.seed,
+                    "input": {"world_name": name, "new_state": new_state, "lines": seg}})
+        # drop the rejected round and validate the rest
+        lines = lines[:bad["first"] - 1] + lines[bad["last"]:]
+        n = bad["last"] - bad["first"] + 1
+        rinfo = [x if x["last"] < bad["first"] else dict(x, first=x["first"] - n, last=x["last"] - n) for x in rinfo if x is not bad]
+        if not rinfo:
+            break
+    ctx.traces_validated += accepted
+    ctx.coverage["recorded_traces_accepted_by_tlc"] = ctx.coverage.get("recorded_traces_accepted_by_tlc", 0) + accepted
+    return lines, files
+
+
+def selftest(ctx, binary, lines, files, behs, world):
+    """The binding must reject what is wrong: corrupted traces, a flipped expectation."""
+    n = 0
+    for kind in ("store-flipped", "recv-dropped", "height-shifted"):
+        bad, done = [], False
+        for ln in lines:
+            e = json.loads(ln)
+            if not done and kind == "store-flipped" and e["ev"] == "Store" and e["ok"]:
+                e["ok"], done = False, True
+            elif not done and kind == "recv-dropped" and e["ev"] == "Recv" and e["k"] == "good":
+                done = True
+                continue
+            elif not done and kind == "height-shifted" and e["ev"] == "Req" and e["part"] == "cls":
+                e["n"], done = e["n"] + 1, True
+            bad.append(json.dumps(e))
+        if not done:
+            continue
+        tf = os.path.join(ctx.scratch, "selftest-%s.ndjson" % kind)
+        with open(tf, "w") as f:
+            f.write("\n".join(bad) + "\n")
+        ok, _ = ctx.tlc_trace(FAM, "P2PSyncTrace.tla", "P2PSync_trace.cfg", tf, timeout=900, files=files)
+        if ok:
+            raise vlib.Broken("selftest: the trace binding accepted a corrupted trace (%s)" % kind)
+        n += 1
+    ctx.tlc_runs[:] = [r for r in ctx.tlc_runs if not (r["label"].startswith("trace:") and not r["ok"])]
+    # a behaviour whose expected Store result is flipped must diverge on the real code
+    for b in behs:
+        idx = [i for i, s in enumerate(b) if s["a"]["name"] == "Store" and s["a"]["ok"]]
+        if idx:
+            bb = json.loads(json.dumps(b))
+            bb[idx[0]]["a"]["ok"] = False
+            r = ctx.run_engine(binary, "TestP2PSyncReplay", {"world": world, "behaviours": [bb]})
+            if not r.get("divergences"):
+                raise vlib.Broken("selftest: the replay binding accepted a flipped expectation")
+            n += 1
+            break
+    if n < 3:
+        raise vlib.Broken("selftest: only %d corruptions could be applied" % n)
+    ctx.coverage["selftest_corruptions_rejected"] = n
 
 
 def run(ctx):
-    binary = ctx.build_engine("p2psync", stubs=True)
+    binary = ctx.build_engine(FAM, stubs=True)
     if ctx.replay:
         rp = json.load(open(ctx.replay))
-        ctx.absorb(ctx.run_engine(binary, rp["test"], rp["input"]), "p2psync", rp["test"])
+        if rp["test"] == "trace":
+            wd = rp["input"]
+            files, _ = sim_files(SIM_WORLDS[wd["world_name"]], wd["new_state"])
+            tf = os.path.join(ctx.scratch, "replay.ndjson")
+            with open(tf, "w") as f:
+                f.write("\n".join(wd["lines"]) + "\n")
+            ok, r = ctx.tlc_trace(FAM, "P2PSyncTrace.tla", "P2PSync_trace.cfg", tf, timeout=1500, files=files)
+            if not ok:
+                ctx.report(rp.get("divergence", {}).get("key", "p2psync:trace-rejected"), "the recorded run is rejected by P2PSync.tla (replay)", rp)
+            return ctx.finish("model_checking", "replay of one recorded trace")
+        ctx.absorb(ctx.run_engine(binary, rp["test"], rp["input"]), FAM, rp["test"])
         return ctx.finish("model_checking", "replay")
-    raise vlib.Broken("not finished")
+
+    q = ctx.quick()
+    ctx.assumptions += [
+        "nothing in p2p/sync stores a block at the pinned commit (the consumer of Listen() is gone from node.go): the harness plays the "
+        "consumer the code had before — Blockchain.Store of every error-free body in arrival order",
+        "source blocks are restricted to what the p2p wire format carries (see the limit:* observations for what falls outside)",
+        "protocol versions 0.13.2 - 0.14.0 (chainkit cannot build older blocks; 0.14.1 class declarations are outside the format)",
+        "the Sierra compiler is a deterministic stand-in (the Rust FFI is not linked offline)",
+        "peers misbehave within a finite alphabet of classes, each with several concrete variants (harness/engines/p2psync/faults_test.go)",
+    ]
+    model_check(ctx)
+
+    # replay of TLC-simulated behaviours on the real Service
+    plan = [("mixed", False, 60), ("plain", True, 50), ("forkbelow", False, 40)] if q else \
+           [("mixed", False, 500), ("mixed", True, 300), ("plain", True, 400), ("plain", False, 300), ("forkbelow", False, 300), ("forkbelow", True, 200)]
+    first = None
+    for i, (name, ns, nbeh) in enumerate(plan):
+        behs, world = replay(ctx, binary, name, ns, nbeh, ctx.seed * 100 + i)
+        first = first or (behs, world)
+
+    # free-running rounds: monitors + TLC trace validation
+    lines = files = None
+    for i, (name, ns, rounds) in enumerate([("free", False, 8), ("freefork", True, 6)] if q else
+                                           [("free", False, 40), ("free", True, 30), ("freefork", True, 30), ("freefork", False, 20), ("plain", False, 30)]):
+        l2, f2 = validate_traces(ctx, binary, name, ns, rounds, ctx.seed * 10_000 + 1000 * i)
+        if l2 and lines is None:
+            lines, files = l2, f2
+
+    # the serving side: every request of P2PServer.tla's domain against the contract
+    cases = server_cases(ctx)
+    sw = world_json(SERVER_WORLD, False)
+    ctx.absorb(ctx.run_engine(binary, "TestP2PServerContract", {"world": sw, "m": 16, "cases": cases}), FAM, "TestP2PServerContract")
+    ctx.absorb(ctx.run_engine(binary, "TestP2PServerGarbage", {"world": sw, "m": 16, "cases": []}), FAM, "TestP2PServerGarbage")
+    if not q:
+        ctx.absorb(ctx.run_engine(binary, "TestP2PServerContract", {"world": world_json(SERVER_WORLD, True), "m": 16, "cases": cases}), FAM, "TestP2PServerContract")
+
+    # cancellation races found by TLC in the as-coded model; malformed answers; stated limits
+    rw = world_json(ROBUST_WORLD, False)
+    ctx.absorb(ctx.run_engine(binary, "TestP2PSyncCancel", {"world": rw}), FAM, "TestP2PSyncCancel")
+    ctx.absorb(ctx.run_engine(binary, "TestP2PSyncRobust", {"world": rw, "max_quick": 60}, timeout=2400), FAM, "TestP2PSyncRobust")
+    lim = ctx.run_engine(binary, "TestP2PSyncLimits", {})
+    for k, v in sorted((lim.get("stats") or {}).items()):
+        if k.startswith("limit:"):
+            print("OBSERVATION: property=G10 %s: %s" % (k[6:], v), flush=True)
+    ctx.coverage["limit_probes"] = {k: str(v).split(" — ")[0] for k, v in (lim.get("stats") or {}).items()}
+
+    if not q and lines:
+        selftest(ctx, binary, lines, files, first[0], first[1])
+
+    return ctx.finish("model_checking",
+                      "exhaustive TLC on P2PSync.tla (repaired and as-coded designs, liveness under fairness, expected-violation runs per mechanism) "
+                      "and P2PServer.tla; TLC-simulated behaviours (peer classes per request, arrival orders, consumer interleavings, cancellation) "
+                      "replayed in lockstep on the real p2p/sync Service against scripted peers that are real p2p/server instances behind a fault "
+                      "stage, projection compared before every harness step; free-running rounds judged by monitors and by TLC trace validation; "
+                      "every request of the server model's domain replayed on the real handlers against the declared range; one-field-missing "
+                      "variants of every answer message; the cancellation races of the as-coded model reproduced with gates")
